@@ -2,9 +2,12 @@
 //
 // Engine E4. Every sequence of up to N block metas, each with a non-empty subset of a small source
 // alphabet as Compaction.Sources and one of a few compaction groups (labels / resolution), is fed
-//   - to the real DefaultDeduplicateFilter.Filter with concurrency 1, 2 and 3 (exported API), and
+//   - to the real DefaultDeduplicateFilter.Filter with concurrency 1, 2, 3 and 4 (exported API), first on a fresh filter and
+//     then, on the SAME filter instance (components keep one filter and call it once per sync), for the listing without
+//     its newest block and for the full listing again, and
 //   - group by group, in EVERY permutation, to the unexported filterGroup (the seam where the listing
 //     order - Go map iteration order inside Filter - enters).
+//
 // Position in the sequence = ULID rank of the block, so every relation between ULID order and source
 // sets is covered (the filter breaks ties by ULID).
 package c31
@@ -112,12 +115,13 @@ func TestCheck(t *testing.T) {
 	r := vlib.New(t, "C31")
 	defer r.Finish()
 	r.Rule("all sequences of <=N metas (position = ULID rank) x Sources = every non-empty subset of the source alphabet x compaction group (labels / resolution); " +
-		"each through Filter with concurrency 1,2,3 and every permutation of every group's slice through filterGroup; " +
+		"each through Filter with concurrency 1,2,3,4 on a fresh filter, then on the same instance for the listing without its newest block and for the full listing again, and every permutation of every group's slice through filterGroup; " +
 		"non-trivial = distinct cases in which at least one block is hidden and the hidden block's group holds >=2 blocks with different source sets")
 	r.Assume(
 		"Sources lists are duplicate-free and non-empty (what the compactor and the shipper write)",
 		"inside Filter the listing order is Go's map iteration order, which cannot be enumerated; the order-sensitive step (filterGroup on the group slice) is driven directly with every permutation instead",
-		"goroutine interleavings of Filter's workers are explored by the scheduler-controlled part of C31, not here; here Filter is only run once per concurrency level",
+		"goroutine interleavings of Filter's workers are explored by the scheduler-controlled part of C31, not here; here every Filter call runs free, once",
+		"history of one filter instance: the listing, the listing without its newest (highest ULID) block, the listing again; the calls of one instance do not overlap (the type is documented as not goroutine safe)",
 	)
 	ctx := context.Background()
 	vlib.ForEach(r, gen(r), func(c Case) {
@@ -130,13 +134,14 @@ func TestCheck(t *testing.T) {
 		}
 		covers := func(k, h int) bool { return c.Metas[k].S&c.Metas[h].S == c.Metas[h].S }
 
-		judge := func(o outcome, how string) bool {
-			for h := 0; h < n; h++ {
+		// judge applies the statement to one outcome on the listing made of the first m blocks of the case.
+		judgeN := func(o outcome, m int, how string) bool {
+			for h := 0; h < m; h++ {
 				if !o.hidden[h] {
 					continue
 				}
 				same, other := false, false
-				for k := 0; k < n; k++ {
+				for k := 0; k < m; k++ {
 					if k == h || o.hidden[k] || !covers(k, h) {
 						continue
 					}
@@ -157,13 +162,13 @@ func TestCheck(t *testing.T) {
 			}
 			for g := 0; g < len(groupRes); g++ {
 				all, kept := 0, 0
-				for i, m := range c.Metas {
-					if m.G != g {
+				for i, mm := range c.Metas[:m] {
+					if mm.G != g {
 						continue
 					}
-					all |= m.S
+					all |= mm.S
 					if !o.hidden[i] {
-						kept |= m.S
+						kept |= mm.S
 					}
 				}
 				if all != kept {
@@ -173,28 +178,35 @@ func TestCheck(t *testing.T) {
 			}
 			return true
 		}
+		judge := func(o outcome, how string) bool { return judgeN(o, n, how) }
 
-		var ref outcome
-		for conc := 1; conc <= 3; conc++ {
+		// filter runs one Filter call of f on a fresh listing of the first m blocks of the case (every sync lists the
+		// bucket again) and observes which of them are hidden afterwards.
+		filter := func(f *block.DefaultDeduplicateFilter, m int, how string) (o outcome, ok bool) {
+			defer func() {
+				if x := recover(); x != nil {
+					r.Violation("filter-panic", fmt.Sprintf("%s: %v", how, x), c)
+					ok = false
+				}
+			}()
 			metas := map[ulid.ULID]*metadata.Meta{}
-			for _, m := range build(c) {
-				metas[m.ULID] = m
+			for _, mt := range build(c)[:m] {
+				metas[mt.ULID] = mt
 			}
-			f := block.NewDeduplicateFilter(conc)
 			if err := f.Filter(ctx, metas, gauge, gauge); err != nil {
-				r.Violation("filter-error", err.Error(), c)
-				return
+				r.Violation("filter-error", how+": "+err.Error(), c)
+				return o, false
 			}
-			o := outcome{hidden: make([]bool, n)}
+			o = outcome{hidden: make([]bool, n)}
 			for id := range metas {
-				if _, ok := pos[id]; !ok {
-					r.Violation("filter-invented-a-block", id.String(), c)
-					return
+				if i, ok := pos[id]; !ok || i >= m {
+					r.Violation("filter-invented-a-block", how+": "+id.String(), c)
+					return o, false
 				}
 			}
 			removed := 0
 			for id, i := range pos {
-				if _, ok := metas[id]; !ok {
+				if _, ok := metas[id]; !ok && i < m {
 					o.hidden[i] = true
 					removed++
 				}
@@ -203,20 +215,32 @@ func TestCheck(t *testing.T) {
 			seen := map[ulid.ULID]bool{}
 			for _, id := range dups {
 				i, ok := pos[id]
-				if !ok {
-					r.Violation("duplicate-ids-name-unknown-block", id.String(), c)
-					return
+				if !ok || i >= m {
+					r.Violation("duplicate-ids-name-unknown-block", fmt.Sprintf("%s: DuplicateIDs lists %s, which is not in the listing just filtered", how, id), c)
+					return o, false
 				}
 				if !o.hidden[i] || seen[id] {
-					r.Note("DuplicateIDs differs from the set of removed metas (conc %d): case %+v dups %v", conc, c, dups)
+					r.Note("DuplicateIDs differs from the set of removed metas (%s): case %+v dups %v", how, c, dups)
 				}
 				seen[id] = true
 				o.hidden[i] = true
 			}
 			if len(seen) != removed {
-				r.Note("DuplicateIDs has %d ids, %d metas were removed: case %+v", len(seen), removed, c)
+				r.Note("DuplicateIDs has %d ids, %d metas were removed (%s): case %+v", len(seen), removed, how, c)
 			}
-			if !judge(o, fmt.Sprintf("Filter(concurrency=%d)", conc)) {
+			return o, judgeN(o, m, how)
+		}
+
+		// sequential reference for the listing without its newest block (fresh filter, concurrency 1)
+		refPrefix, ok := filter(block.NewDeduplicateFilter(1), n-1, "Filter(concurrency=1) on the listing without its newest block")
+		if !ok {
+			return
+		}
+		var ref outcome
+		for conc := 1; conc <= 4; conc++ {
+			f := block.NewDeduplicateFilter(conc)
+			o, ok := filter(f, n, fmt.Sprintf("Filter(concurrency=%d)", conc))
+			if !ok {
 				return
 			}
 			if conc == 1 {
@@ -224,6 +248,22 @@ func TestCheck(t *testing.T) {
 			} else if o.key() != ref.key() {
 				r.Violation("outcome-depends-on-concurrency", fmt.Sprintf("hidden=%s with concurrency 1, %s with concurrency %d", ref.key(), o.key(), conc), c)
 				return
+			}
+			// the same instance is used for the following syncs: the newest block has gone, then it is back
+			for k, m := range []int{n - 1, n} {
+				how := fmt.Sprintf("Filter call %d on one instance (concurrency=%d; listings: all %d blocks, first %d, all %d)", k+2, conc, n, n-1, n)
+				o, ok := filter(f, m, how)
+				if !ok {
+					return
+				}
+				want := ref
+				if m < n {
+					want = refPrefix
+				}
+				if o.key() != want.key() {
+					r.Violation("outcome-depends-on-earlier-filter-call", fmt.Sprintf("%s hides %s, a fresh filter with concurrency 1 hides %s", how, o.key(), want.key()), c)
+					return
+				}
 			}
 		}
 
